@@ -45,14 +45,28 @@ def check_stop(ctx, case):
         a_state, a_key = blocks, keys
     a_state = a_state.astype(dt)
     a_key = a_key.astype(dt)
-    s0, k0 = a_state.copy(), a_key.copy()
     f = aes.encrypt if mode == 'encrypt' else aes.decrypt
+    nr = keys.shape[1] // 4 + 6
     kw = {}
     if rnd is not None:
-        kw = {'at_round': rnd, 'after_step': step}
+        kw['at_round'] = rnd
+    if step is not None:
+        # plain int or the documented enumeration member
+        kw['after_step'] = (aes.Steps if mode == 'encrypt' else aes.InverseSteps)(step) if case.get('step_enum') else step
+    if case.get('prime'):
+        # the same array OBJECTS are used for an earlier call with other contents, then overwritten in place
+        # (an identity-keyed cache or a retained reference must not leak into the second call)
+        s_buf, k_buf = a_state.copy(), a_key.copy()
+        k_buf[...] = np.roll(a_key, 1, axis=-1) ^ 0x5a if a_key.dtype.kind in 'iu' else a_key
+        s_buf[...] = np.roll(a_state, 3, axis=-1)
+        must(case, 'aes.%s (priming call)' % mode, f, s_buf, k_buf, **kw)
+        k_buf[...] = a_key
+        s_buf[...] = a_state
+        a_state, a_key = s_buf, k_buf
+    s0, k0 = a_state.copy(), a_key.copy()
     out = must(case, 'aes.%s(at_round=%s, after_step=%s, shape=%s)' % (mode, rnd, step, shape), f, a_state, a_key, **kw)
-    nr = keys.shape[1] // 4 + 6
-    erk, est = (nr, 3) if rnd is None else (rnd, step)
+    # documented defaults: at_round omitted = last round, after_step omitted = last operation of the round
+    erk, est = (nr if rnd is None else rnd), (3 if step is None else step)
     n = max(len(blocks) if shape in ('many-one', 'paired') else 1, len(keys) if shape in ('one-many', 'paired') else 1)
     kk = keys if shape in ('one-many', 'paired') else np.repeat(keys[:1], n, axis=0)
     bb = blocks if shape in ('many-one', 'paired') else np.repeat(blocks[:1], n, axis=0)
@@ -62,15 +76,16 @@ def check_stop(ctx, case):
             mode, rnd, step, shape, np.asarray(out).tolist() if np.size(out) <= 32 else 'shape %s' % (np.shape(out),), exp.tolist() if exp.size <= 32 else '…'), case)
     if not (np.array_equal(a_state, s0) and np.array_equal(a_key, k0)) or a_state.dtype != s0.dtype:
         raise Violation('aes.%s modified the caller\'s arrays' % mode, case)
-    if rnd is None:
+    if rnd is None and step is None:
         g = aes.decrypt if mode == 'encrypt' else aes.encrypt
         back = must(case, 'inverse call', g, out, a_key)
         if np.shape(back) != bb.squeeze().shape or not np.array_equal(np.asarray(back).astype('int64'), bb.squeeze().astype('int64')):
             raise Violation('aes decrypt(encrypt(x)) != x (%s)' % shape, case)
-    inside = rnd is not None and not (rnd == nr and step == 3)
+    inside = not (erk == nr and est == 3)
     ctx.case(case, inside or shape in ('one-many', 'paired'),
-             ['mode:' + mode, 'keysize:%d' % keys.shape[1], 'shape:' + shape, 'dtype:' + dt, 'inside' if inside else 'full'],
-             key=(mode, rnd, step, shape, dt, keys, blocks))
+             ['mode:' + mode, 'keysize:%d' % keys.shape[1], 'shape:' + shape, 'dtype:' + dt, 'inside' if inside else 'full',
+              'args:%s%s' % ('r' if rnd is not None else '-', 's' if step is not None else '-')] + (['step_as_enum'] if case.get('step_enum') else []) + (['same_arrays_reused'] if case.get('prime') else []),
+             key=(mode, rnd, step, shape, dt, keys, blocks, bool(case.get('step_enum')), bool(case.get('prime'))))
 
 
 def _mk(mode, ks, rnd, step, shape, dt, g):
@@ -84,12 +99,17 @@ def unit_enum(ctx, mode, reps):
     def cases():
         for ks in KEY_SIZES:
             nr = ks // 4 + 6
-            for rnd, step in [(None, None)] + list(itertools.product(range(nr + 1), range(4))):
+            # every (at_round, after_step) pair, plus each argument left to its default
+            stops = [(None, None)] + list(itertools.product(range(nr + 1), range(4))) + [(None, st_) for st_ in range(4)] + [(r_, None) for r_ in range(nr + 1)]
+            for rnd, step in stops:
                 for shape in SHAPES:
                     for rep in range(reps):
                         g = gen.rng(ctx.seed, mode, ks, rnd, step, shape, rep)
                         dt = 'uint8' if rep % 2 == 0 else DTYPES[int(g.integers(len(DTYPES)))]
-                        yield _mk(mode, ks, rnd, step, shape, dt, g)
+                        c = _mk(mode, ks, rnd, step, shape, dt, g)
+                        c['step_enum'] = bool(g.integers(2)) if step is not None else False
+                        c['prime'] = bool(g.integers(3) == 0)
+                        yield c
     hyp.run_enum(ctx, cases(), check_stop)
 
 
@@ -100,6 +120,11 @@ def stop_cases(draw):
     nr = ks // 4 + 6
     full = draw(st.integers(0, 5)) == 0
     rnd, step = (None, None) if full else (draw(st.integers(0, nr)), draw(st.integers(0, 3)))
+    omit = draw(st.sampled_from(['none', 'none', 'none', 'round', 'step']))
+    if omit == 'round':
+        rnd = None
+    elif omit == 'step':
+        step = None
     shape = draw(st.sampled_from(SHAPES))
     n = 1 if shape == 'one-one' else draw(st.integers(1, 3))
     nk = n if shape in ('one-many', 'paired') else 1
@@ -107,7 +132,7 @@ def stop_cases(draw):
     keys = np.frombuffer(draw(st.binary(min_size=nk * ks, max_size=nk * ks)), dtype='uint8').reshape(nk, ks).copy()
     blocks = np.frombuffer(draw(st.binary(min_size=nb * 16, max_size=nb * 16)), dtype='uint8').reshape(nb, 16).copy()
     return {'kind': 'stop', 'mode': mode, 'at_round': rnd, 'after_step': step, 'shape': shape, 'dtype': draw(st.sampled_from(DTYPES)),
-            'keys': keys, 'blocks': blocks}
+            'keys': keys, 'blocks': blocks, 'step_enum': draw(st.booleans()) if step is not None else False, 'prime': draw(st.booleans())}
 
 
 def unit_generated(ctx, n):
